@@ -238,7 +238,9 @@ func c18Check(c *core.Ctx, data any, where string) bool {
 // c18JSONLiterals: integer literals of a JSON document that float64 cannot hold exactly, into integer destinations. The
 // statement allows two outcomes: the same number, or a coerce issue.
 var c18Literals = []string{"9007199254740993", "-9007199254740993", "9007199254740995", "1152921504606846977", "4611686018427400249", "-4611686018427400249",
-	"9223372036854775807", "-9223372036854775807", "9223372036854775295", "9007199254740992", "9007199254740994", "36028797018963969", "123456789012345678"}
+	"9223372036854775807", "-9223372036854775807", "9223372036854775295", "9007199254740992", "9007199254740994", "36028797018963969", "123456789012345678",
+	// beyond the int64 range on either side
+	"9223372036854775808", "9223372036854776832", "-9223372036854775808", "-9223372036854775809", "-9223372036854776000", "-9223372036854776832", "-9223372036854776833", "18446744073709551615", "-18446744073709551616"}
 
 func c18JSONLiterals(c *core.Ctx) bool {
 	for _, lit := range c18Literals {
@@ -270,7 +272,10 @@ func c18JSONLiterals(c *core.Ctx) bool {
 			f, _ := new(big.Float).SetInt(exact).Float64()
 			viaFloat, acc := new(big.Float).SetFloat64(f).Int(nil)
 			sig := "number-silently-changed|json-integer-literal"
-			if acc == big.Exact && viaFloat.Cmp(got) == 0 {
+			if !exact.IsInt64() && exact.Sign() < 0 && got.IsInt64() && got.Int64() == math.MinInt64 {
+				// narrow class: a literal just below the int64 range whose nearest float64 is exactly -2^63, which is in range
+				sig = "number-silently-changed|json-integer-literal-just-below-MinInt64-stored-as-MinInt64"
+			} else if acc == big.Exact && viaFloat.Cmp(got) == 0 {
 				// narrow class: exactly the value the literal has after the JSON decoder stored it in a float64
 				sig = "number-silently-changed|json-integer-literal-beyond-2^53-rounded-by-the-json-decoder"
 			}
